@@ -156,15 +156,17 @@ def precision_taint(prog, f, prec=None):
     if prec is None:
         return out, None
     written = set(kernels.written_params(f))
-    sources = {p for p in f.params if p not in written and p != prec}
+    sources = {p for p in f.params if p not in written and p != prec and p != 'self'}
     clean_arrays = set()      # locals allocated with dtype=prec
     tainted = set()
     stmts = astutil.stmts_of(f.node)
     counters = {n.target.id for n in ast.walk(f.node) if isinstance(n, ast.For) and isinstance(n.target, ast.Name)}
 
+    def is_prec(x):
+        return norm(x) == prec
+
     def is_prec_alloc(v):
-        return isinstance(v, ast.Call) and any(k.arg == 'dtype' and isinstance(k.value, ast.Name) and k.value.id == prec
-                                                for k in v.keywords)
+        return isinstance(v, ast.Call) and any(k.arg == 'dtype' and is_prec(k.value) for k in v.keywords)
 
     def taint(e):
         """True tainted (narrow), False clean (cast / constant / wide), for expression e"""
@@ -196,11 +198,13 @@ def precision_taint(prog, f, prec=None):
             if not vals:
                 return None
             return all(vals)
+        if isinstance(e, ast.IfExp):
+            vals = [v for v in (taint(e.body), taint(e.orelse)) if v is not None]
+            return any(vals) if vals else None
         if isinstance(e, ast.Call):
-            if isinstance(e.func, ast.Name) and e.func.id == prec:
+            if is_prec(e.func):
                 return False
-            if isinstance(e.func, ast.Attribute) and e.func.attr == 'astype' and e.args and isinstance(e.args[0], ast.Name) \
-                    and e.args[0].id == prec:
+            if isinstance(e.func, ast.Attribute) and e.func.attr == 'astype' and e.args and is_prec(e.args[0]):
                 return False
             if is_prec_alloc(e):
                 return False
@@ -226,6 +230,8 @@ def precision_taint(prog, f, prec=None):
                     tainted.discard(n)
                 elif taint(v) is True and n not in clean_arrays:
                     tainted.add(n)
+                elif taint(v) is False and n in sources:
+                    sources.discard(n)          # the parameter name is rebound to a cast value
     for st in stmts:
         for n in ast.walk(st) if not isinstance(st, (ast.For, ast.While, ast.If, ast.With, ast.Try)) else \
                 ast.walk(getattr(st, 'test', None) or getattr(st, 'iter', None) or ast.Pass()):
@@ -238,8 +244,15 @@ def precision_taint(prog, f, prec=None):
                 elif vals:
                     out.append(F('ok', f, st, f'`{norm(n)[:60]}`: an operand is cast to `{prec}`'))
             elif isinstance(n, ast.Call) and isinstance(n.func, ast.Attribute) and n.func.attr in ('sum', 'dot', 'mean') \
-                    and taint(n.func.value) is True:
+                    and norm(n.func.value).split('.')[0] not in ('_np', 'np', 'numpy') and taint(n.func.value) is True:
                 out.append(F('bad', f, st, f'`{norm(n)[:60]}`: reduction over raw input values runs in the input dtype, not in `{prec}`'))
+            elif isinstance(n, ast.Call) and isinstance(n.func, ast.Attribute) and n.func.attr in ('sum', 'dot', 'matmul', 'mean', 'nansum') \
+                    and norm(n.func.value).split('.')[0] in ('_np', 'np', 'numpy') and n.args:
+                vals = [v for v in (taint(a) for a in n.args[:2]) if v is not None]
+                if vals and all(vals) and not any(k.arg == 'dtype' and is_prec(k.value) for k in n.keywords):
+                    out.append(F('bad', f, st, f'`{norm(n)[:60]}`: every array operand is a raw input; the reduction runs in the input dtype, not in `{prec}`'))
+                elif vals:
+                    out.append(F('ok', f, st, f'`{norm(n)[:60]}`: operands are cast to `{prec}`'))
             elif isinstance(n, ast.Call) and isinstance(n.func, ast.Attribute) and n.func.attr in ('sum', 'dot', 'mean') \
                     and taint(n.func.value) is False and not isinstance(n.func.value, ast.Compare):
                 out.append(F('ok', f, st, f'`{norm(n)[:60]}`: reduction over values held in `{prec}` storage'))
